@@ -18,7 +18,8 @@ from harness.props import c13_codec as CD
 THEOREMS = ["C13_isolation", "C13_default_unaltered", "C13_shared_cache_refuted", "C13_merge_total",
             "C13_merge_covers_all_options", "C13_merge_strategies", "C13_codec_option_uniform",
             "C13_twin_partial", "C13_call_dialect_refuted", "C13_union_partial",
-            "C13_union_member_flags_refuted"]
+            "C13_union_member_flags_refuted", "C13_options_only_via_resolution", "C13_every_option_read",
+            "C13_option_defaults_consistent", "C13_flag_keyword_default", "C13_twin_strategy_sources"]
 
 BOOL_OPTS = ("omit_none", "omit_default", "serialize_by_alias", "namedtuple_as_dict")
 FIVE = ("serialize_by_alias", "namedtuple_as_dict", "omit_none", "omit_default", "no_copy_collections")
@@ -177,7 +178,7 @@ def strategy_corr(ctx: vlib.Ctx):
 # histories on class families
 # ---------------------------------------------------------------------------
 
-KINDS = ["opt", "int", "alias", "nt", "list", "str", "optstr", "bytes"]
+KINDS = ["opt", "int", "alias", "nt", "list", "str", "optstr", "bytes", "selfopt", "selflist"]
 
 
 def gen_spec(r) -> dict:
@@ -186,19 +187,26 @@ def gen_spec(r) -> dict:
     for i in range(1, k + 1):
         s = {o: r.choice([None, None, True, False]) for o in BOOL_OPTS}
         s["no_copy_collections"] = r.choice([None, None, "empty", "list", "listdict"])
-        s["int"] = r.choice([None, None, "dict", "strat"])
+        s["int"] = r.choice([None, None, "dict", "strat", "ser", "de"])
+        s["bytes"] = r.choice([None, None, "de"])
         s["str"] = r.random() < 0.3
         dialects[str(i)] = s
     base = None
-    if r.random() < 0.25:
+    if r.random() < 0.3:
         # the classes have a default dialect of their own: a dialect that says no more than dialect j
         j = r.randint(1, k)
         b = {o: (v if r.random() < 0.6 else (None if o != "str" else False)) for o, v in dialects[str(j)].items()}
         base = k + 1
         dialects[str(base)] = b
     flags = ["dialect"]
-    if r.random() < 0.2:
+    if r.random() < 0.3:
         flags += r.choice([["omit_none"], ["by_alias"], ["omit_none", "by_alias"]])
+        if base is not None:
+            # keyword flags whose default must come from the classes' default dialect
+            if "omit_none" in flags and r.random() < 0.7:
+                dialects[str(base)]["omit_none"] = True
+            if "by_alias" in flags and r.random() < 0.7:
+                dialects[str(base)]["serialize_by_alias"] = True
 
     def cfg():
         c = {"flags": list(flags)}
@@ -226,7 +234,7 @@ def gen_spec(r) -> dict:
     if any(kd == "inner" for f, kd in classes["C"]["fields"]):
         pass
     return {"dialects": dialects, "classes": classes, "order": ["Inner", "P", "C", "G", "S"], "flags": flags,
-            "base_dialect": base, "mixin": mixin}
+            "base_dialect": base, "mixin": mixin, "cfg_int": r.random() < 0.4}
 
 
 def covers(spec: dict, di) -> bool:
@@ -239,7 +247,13 @@ def covers(spec: dict, di) -> bool:
     if di is None:
         return True                      # plain call: the twin is the family itself
     bs, ds = spec["dialects"][str(b)], spec["dialects"][str(di)]
+    dirs = {None: set(), "dict": {"s", "d"}, "strat": {"s", "d"}, "ser": {"s"}, "de": {"d"}}
+    for o in ("int", "bytes"):
+        if not dirs[bs.get(o)] <= dirs[ds.get(o)]:
+            return False
     for o, v in bs.items():
+        if o in ("int", "bytes"):
+            continue
         if v not in (None, False) or (v is False and o != "str"):
             dv = ds.get(o)
             if dv is None or (o == "str" and not dv):
@@ -247,9 +261,17 @@ def covers(spec: dict, di) -> bool:
     return True
 
 
-def gen_vals(r, fam: F.Family, cname: str) -> dict:
+def gen_vals(r, fam: F.Family, cname: str, depth: int = 0) -> dict:
     vals = {}
     for f, kind in fam.all_fields(cname):
+        if kind in ("selfopt", "selflist"):
+            # recursive positions: nested nodes of the same class, two or three levels deep
+            if depth < 2 and r.random() < (0.75 if depth == 0 else 0.4):
+                if kind == "selfopt":
+                    vals[f] = gen_vals(r, fam, cname, depth + 1)
+                else:
+                    vals[f] = [gen_vals(r, fam, cname, depth + 1) for _ in range(r.randint(1, 2))]
+            continue
         if r.random() < 0.25:
             continue                                   # leave the default
         vals[f] = {"opt": lambda: r.choice([None, 3, 0]), "int": lambda: r.choice([5, 6, 0]),
@@ -323,6 +345,59 @@ def decode_from(res):
     return (CID[name], vals.pop())
 
 
+def nested_to(raw):
+    """(class name or None, decoded tag) of every nested dataclass document, in the order the nested
+    to_dict calls happen (pre-order, field order)."""
+    out = []
+
+    def visit(v):
+        if isinstance(v, dict):
+            if any(isinstance(k, str) and k.startswith("t_") for k in v):
+                tag = decode_to(v)
+                ts = frozenset(k for k in v if isinstance(k, str) and k.startswith("t_"))
+                out.append((TSETS.get(ts), tag))
+                walk(v)
+            else:
+                for x in v.values():
+                    visit(x)
+        elif isinstance(v, (list, tuple)):
+            for x in v:
+                visit(x)
+
+    def walk(d):
+        for x in d.values():
+            visit(x)
+
+    if isinstance(raw, dict):
+        walk(raw)
+    return out
+
+
+def nested_from(res):
+    """the same for from_dict: nested dataclass instances that were actually unpacked (a defaulted
+    nested instance has undecoded tags)."""
+    import dataclasses
+    out = []
+
+    def visit(v):
+        if dataclasses.is_dataclass(v) and not isinstance(v, type):
+            marks = [getattr(getattr(v, a), "m", -1) for a in dir(v) if a.startswith("t_")]
+            if any(isinstance(m, int) and m >= 0 for m in marks):
+                out.append((type(v).__name__, decode_from(v)))
+                walk(v)
+        elif isinstance(v, (list, tuple)) and not hasattr(v, "_fields"):
+            for x in v:
+                visit(x)
+
+    def walk(inst):
+        for f in dataclasses.fields(inst):
+            visit(getattr(inst, f.name))
+
+    if res is not None and dataclasses.is_dataclass(res):
+        walk(res)
+    return out
+
+
 def coq_tag(t, base=None):
     if t is None:
         return "None"
@@ -354,6 +429,16 @@ class HistoryRun:
             self.twins[key] = F.Family(self.spec, None if key is None else (("idx", key) if isinstance(key, int) else key))
         return self.twins[key]
 
+    def unflagged(self):
+        if "noflags" not in self.twins:
+            sp = copy.deepcopy(self.spec)
+            sp["flags"] = ["dialect"]
+            for c in sp["classes"].values():
+                if c.get("config") is not None:
+                    c["config"]["flags"] = ["dialect"]
+            self.twins["noflags"] = F.Family(sp, None)
+        return self.twins["noflags"]
+
     def close(self):
         self.fam.close()
         for t in self.twins.values():
@@ -374,19 +459,27 @@ class HistoryRun:
                 op[4] = vals
             tw = self.twin(di)
             mops, mouts = self.model[direction]
-            inner_f = has_inner(fam, c)
             mp = direction in ("mto", "mfrom")
             if direction in ("to", "mto"):
                 got, gid, raw = F.call_to_dict(fam, c, vals, di, mp)
                 exp, eid, _ = F.call_to_dict(tw, c, vals, None, mp)
                 mops.append(["call", CID[c], di])
                 mouts.append(decode_to(raw))
-                if inner_f and isinstance(raw, dict):
-                    nested = [v for v in raw.values() if isinstance(v, dict) and "t_Inner" in v]
-                    mops.append(["call", CID["Inner"], di])
-                    mouts.append(decode_to(nested[0]) if nested else None)
+                for ncls, tag in nested_to(raw):
+                    mops.append(["call", CID.get(ncls, 4), di])
+                    mouts.append(tag)
                 ok = (got == exp and gid == eid)
                 observed, expected = [got, gid], [exp, eid]
+                flags = self.spec.get("flags", ["dialect"])
+                if ok and di is None and len(flags) > 1 and self.mismatch is None:
+                    # a keyword flag only adds a keyword: without that keyword the result is the one of the same
+                    # family without the flag options (whatever supplies the option: Config, Config.dialect, format)
+                    nf = self.unflagged()
+                    exp2, eid2, _ = F.call_to_dict(nf, c, vals, None, mp)
+                    if [got, gid] != [exp2, eid2]:
+                        self.mismatch = {"index": idx, "op": [c, direction, di, vals], "observed": [got, gid],
+                                         "expected": [exp2, eid2], "kind": "keyword-flag-changes-default-output"}
+                        break
             else:
                 if covers(self.spec, di):
                     _, _, doc = F.call_to_dict(tw, c, vals, None, mp)      # a document of dialect di
@@ -397,19 +490,18 @@ class HistoryRun:
                     tops, touts = self.model["mto" if mp else "to"]
                     tops.append(["call", CID[c], di])
                     touts.append(decode_to(doc))
-                    if inner_f and isinstance(doc, dict):
-                        nested = [v for v in doc.values() if isinstance(v, dict) and "t_Inner" in v]
-                        tops.append(["call", CID["Inner"], di])
-                        touts.append(decode_to(nested[0]) if nested else None)
+                    for ncls, tag in nested_to(doc):
+                        tops.append(["call", CID.get(ncls, 4), di])
+                        touts.append(tag)
                 got, res = F.call_from_dict(fam, c, doc, di, mp)
                 exp, _ = F.call_from_dict(tw, c, doc, None, mp)
                 mops.append(["call", CID[c], di])
                 mouts.append(decode_from(res))
-                if inner_f and isinstance(doc, dict) and res is not None:
-                    inner = getattr(res, inner_f, None)
-                    if any(isinstance(v, dict) and "t_Inner" in v for v in doc.values()):
-                        mops.append(["call", CID["Inner"], di])
-                        mouts.append(decode_from(inner))
+                nres = nested_from(res)
+                ndoc = nested_to(doc)
+                for i, (ncls, _t) in enumerate(ndoc):          # one nested from_dict call per nested document
+                    mops.append(["call", CID.get(ncls, 4), di])
+                    mouts.append(nres[i][1] if i < len(nres) else None)
                 ok = got == exp
                 observed, expected = got, exp
             self.stats.append((c, direction, di))
@@ -434,6 +526,8 @@ class HistoryRun:
 def classify_history_failure(hr: HistoryRun, mm: dict) -> dict:
     """Signature of a history mismatch; narrow predicate for call-dialect-vs-flag-defaults."""
     c, direction, di, vals = mm["op"]
+    if mm.get("kind"):
+        return {"kind": mm["kind"], "direction": direction}
     sig = {"kind": "call-dialect-differs-from-twin", "direction": direction}
     flags = hr.spec.get("flags", ["dialect"])
     if direction in ("to", "mto") and di is not None and ("omit_none" in flags or "by_alias" in flags):
@@ -479,8 +573,10 @@ def history_part(ctx: vlib.Ctx, n_hist=None, tag=""):
             if mm is not None:
                 sig = classify_history_failure(hr, mm)
                 upto = [list(o) for o in ops[:mm["index"] + 1]]
+                what_twin = ("the same family without keyword-flag options" if sig["kind"] == "keyword-flag-changes-default-output"
+                             else f"the twin family whose default dialect is D{mm['op'][2]}")
                 ctx.fail(f"{mm['op'][0]}.{ {'to': 'to_dict', 'from': 'from_dict', 'mto': 'to_msgpack', 'mfrom': 'from_msgpack'}[mm['op'][1]] }(dialect=D{mm['op'][2]}) after "
-                         f"{mm['index']} earlier operations differs from the twin family whose default dialect is D{mm['op'][2]}",
+                         f"{mm['index']} earlier operations differs from {what_twin}",
                          {"entry": "history", "spec": spec, "source": F.family_source(spec), "ops": upto,
                           "observed": mm["observed"], "expected": mm["expected"]}, sig)
                 if sig["kind"] == "call-dialect-vs-flag-defaults":
@@ -661,7 +757,7 @@ def run(ctx: vlib.Ctx):
         "interleavings of class definitions and to_dict/from_dict calls with dialects from {None, D1..Dk}; distinct = (history, class, "
         "direction, dialect). codecs: 6 formats x all 2^6 settings (5 options set/unset x strategy map) x dataclass shapes x values; "
         "distinct = (format, option vector, shape, value). merge: random option namespaces / strategy maps.")
-    ctx.theorems("props/C13_dialects.vo", THEOREMS, kernels=["K2", "K3", "K13"])
+    ctx.theorems("props/C13_dialects.vo", THEOREMS, kernels=["K2", "K3", "K5", "K13", "K13F"])
     ctx.trusted += [
         "DialectCache.step: model of the generated prologue/dispatch of add_(un)pack_method (attribute lookup through the MRO, "
         "own-namespace creation, dict item assignment); compared with real class families on every run",
